@@ -137,6 +137,15 @@ func TestStoredNodes(t *testing.T) {
 				mpt.SetVersion(util.Sequence(version))
 			}
 		}
+		// a caller that overwrites the bytes a lookup returned (on a trie with a cold cache) must not reach stored nodes
+		cold := mptkit.NewTrie(st.DB, version, mpt.GetRoot())
+		for p := range model {
+			if v, err := cold.GetNodeValueRaw(util.Path(p)); err == nil {
+				for i := range v {
+					v[i] ^= 0xff
+				}
+			}
+		}
 		checkStore(rt, kind, st.DB)
 		// the persistent sink has received every change set: raw bytes must be self-addressed and complete
 		raw := grocksdb.StoreFor(sinkDir).Snapshot("default")
